@@ -298,8 +298,11 @@ def run_check(pid, tier, seed, jobs=None, budget_scale=1.0):
     try:
         with cf.ProcessPoolExecutor(max_workers=jobs, mp_context=ctx) as ex:
             futs = [ex.submit(_worker, (pid, it, seed, wall_cap)) for it in items]
+            fmap = {fu: it for fu, it in zip(futs, items)}
+            slow = []
             for fu in cf.as_completed(futs):
                 a = fu.result()
+                slow.append((round(a.get("wall", 0), 1), a["evaluations"], json.dumps(fmap[fu])[:90]))
                 total["evaluations"] += a["evaluations"]
                 total["sigs"].update(a["sigs"])
                 total["scheds"].update(a["scheds"])
@@ -329,6 +332,9 @@ def run_check(pid, tier, seed, jobs=None, budget_scale=1.0):
         print(f"HARNESS-ERROR property={pid} worker died (wall cap {wall_cap}s or crash): {e}")
         return 2
     wall = time.time() - t0
+    if os.environ.get("VERIF_DEBUG"):
+        for x in sorted(slow, reverse=True)[:8]:
+            print("  slowest item:", x)
     known = load_known()
     rc = 0
     known_seen = []
